@@ -736,6 +736,12 @@ impl DtlsInner {
                             ctx.incomplete_msg_seq = msg.message_seq;
                         }
 
+                        // Fragments are reassembled strictly in order: a fragment is
+                        // appended only at its own offset. A duplicated, overlapping or
+                        // early fragment is ignored; retransmission repairs the gap.
+                        if msg.fragment_offset as usize != ctx.incomplete_handshake.len() {
+                            continue;
+                        }
                         ctx.incomplete_handshake.extend_from_slice(&msg.body[..]);
 
                         if ctx.incomplete_handshake.len() < msg.total_length as usize {
